@@ -19,7 +19,13 @@ CHECKS = {
  "C15": ("fvh-blackbox", "model-based stateful property testing (ordered-map model + greatest-ID-ever)",
          "generated stream histories (auto/explicit IDs at u64 edges and ahead of the clock, malformed IDs, XDEL/XTRIM, ranges with bounds below/inside/between/above, COUNT, XREAD) against the real server and an ordered-map model that tracks the greatest ID ever added.",
          "only complete IDs; fields compare as maps; findings K02/K03 excluded while they reproduce", "3/C15"),
+ "C20": ("fvh-inproc", "property-based round-trip, exhaustive/generated chunking differential, totality under catch_unwind + counting allocator (child process for aborts)",
+         "in-process against ferrous::protocol: generated frame trees round-trip through serializer and parser; streams of frames (optionally damaged) are fed whole and in generated chunkings, exhaustively for streams of <= 12 bytes, and must give the same frames and terminal state; arbitrary protocol-alphabet bytes and hostile declared lengths must yield frame / need-more / error without panic, abort or an allocation beyond 64 KiB + 64 x bytes received.",
+         "simple strings/errors generated without CR/LF; allocation bound is deliberately loose (a complete array of tiny elements costs ~11x its wire size); nesting probed to 100000 levels in child processes", "3/C20"),
 }
+CHECKS["C04"] = ("fvh-blackbox", "model-based stateful property testing: in-process skip-list sequences with a structural invariant hook + command histories over colliding scores",
+         "A: generated insert/re-score/remove/range sequences on the real SkipList, every op followed by the cfg-guarded structural invariant walker (all levels ordered, sub-sequence property, index/chain/length bijection) and by all public queries against an ordered model, each sequence run 4 times because tower heights are random. B: generated sorted-set command histories against the real server and an ordered (score, member) model with dumps after refused commands (refused multi-member ZADD adds nothing) and at the end.",
+         "scores compared numerically; trusts the model and the hook's invariant list; finding K02 excluded while it reproduces", "3/C04")
 
 checks = []
 for i in ids:
@@ -40,7 +46,7 @@ for i in ids:
 hooks = []
 try:
     out = subprocess.run(['git','-C','/repo','log','--format=%H %s'],capture_output=True,text=True).stdout
-    hooks = [l.split()[0] for l in out.splitlines() if ' verif-hook:' in l or l.split(' ',1)[1].startswith('verif hook')]
+    hooks = [l.split()[0] for l in out.splitlines() if ' verif-hook:' in l]
 except Exception:
     pass
 
